@@ -231,7 +231,18 @@ use crate::palette::{
 /// coordinates.
 fn key_material(rng: &mut Rng) -> Vec<u8> {
     let n = *rng.pick(&[32usize, 48, 66, 28, 57]);
-    match rng.below(6) {
+    match rng.below(8) {
+        6 => {
+            // a field element as a big-integer library emits it: one sign octet 00 in front of a
+            // value whose top bit is set
+            let mut v = vec![0x00, 0x80 | (rng.next_u64() as u8)];
+            v.extend(pat(n - 1, 35));
+            v
+        }
+        7 => {
+            // a field element with a leading zero stripped (one octet short)
+            pat(n - 1, 36)
+        }
         0 => {
             let mut v = vec![0x04];
             v.extend(pat(2 * n, 31));
@@ -319,6 +330,9 @@ fn a_tok(rng: &mut Rng) -> Arg {
     // what the caller's function returns: short markers, and values of the usual signature / tag /
     // ciphertext sizes
     let mut t = format!("TOK#{}", rng.below(1000)).into_bytes();
+    if rng.chance(1, 8) {
+        return Arg::B(crate::common::der_ecdsa_sig(&t, *rng.pick(&[32usize, 48, 66])));
+    }
     if rng.bool() {
         let n = *rng.pick(&[8usize, 12, 16, 24, 32, 48, 64, 66, 96, 128, 132, 256, 512]);
         while t.len() < n {
